@@ -2326,8 +2326,16 @@ void mmd_export_token_latex_tt(DString * out, const char * source, token * t, sc
 		case HASH5:
 		case HASH6:
 		case TEXT_HASH:
-			print_const("\\");
-			print_token(t);
+
+			// Escape every hash of the run, not only the first one
+			for (int i = 0; i < t->len; ++i) {
+				if (source[t->start + i] == '#') {
+					print_const("\\#");
+				} else {
+					mmd_print_char_latex(out, source[t->start + i]);
+				}
+			}
+
 			break;
 
 		case HTML_ENTITY:
